@@ -48,7 +48,7 @@ ASSUMPTIONS.update({
     "vsv_fields_by_name": "the loop that fills expected_fields_by_name from struct_info.fields (touches no Env)", "vsv_take_field": "FxHashMap::remove", "vsv_is_type_param": "HashSet::contains",
     "vsv_bind": "FxHashMap::insert of Type::from_value(&field_value)", "vsv_expected_ty": "Type::from_hint(..).unwrap_or_err_ty(): reads env.types only", "vsv_none_left": "FxHashMap::is_empty",
     "vsv_missing_names": "into_keys().map(format!).collect().join(\", \")", "vsv_type_args": "the loop that reads type_arg_bindings for each type parameter (touches no Env)", "vsv_struct_type": "Type::UserDefined { kind: Struct, name, args }",
-    "as_string": "ErrorMessage::as_string renders the message", "vfun_runtime_type": "Type::from_fun_info(..).unwrap_or_err_ty() reads env only",
+    "as_string": "ErrorMessage::as_string renders the message", "vns_same": "Rc::ptr_eq of two namespace handles", "vfun_runtime_type": "Type::from_fun_info(..).unwrap_or_err_ty() reads env only",
     "type_representation": "inspects the value only", "get_type_def": "Env::get_type_def reads env.types only", "vtn_eq": "TypeName == TypeName",
     "eval_call": "eval_call: the same clauses are PROVED for the whole function in unit calls",
     "eval_method_call": "eval_method_call: the same clauses are PROVED for the whole function in unit calls",
@@ -415,6 +415,9 @@ impl ErrorMessage {
 /// Type::from_fun_info(..).unwrap_or_err_ty(): reads env.types and the type bindings only
 #[verifier::external_body]
 pub fn vfun_runtime_type(fun_info: &FunInfo, env: &Env) -> (r: Type) { unimplemented!() }
+/// Rc::ptr_eq on two namespace handles
+#[verifier::external_body]
+pub fn vns_same(a: &NamespaceRef, b: &NamespaceRef) -> (r: bool) { unimplemented!() }
 /// `b.as_ref()` on a Box: the boxed value (Box::as_ref has no Verus specification)
 pub fn vbox_ref<T>(b: &Box<T>) -> (r: &T) ensures *r == **b { &**b }
 #[verifier::external_body]
@@ -596,6 +599,7 @@ def build(tier):
     ], props={"C07", "C02", "C06", "C34"}))
     IMP_RULES = BASE_RULES + [
         rw.simple("T1", r"Rc<RefCell<NamespaceInfo>>", "NamespaceRef"),
+        rw.simple("R2", r"Rc::ptr_eq\(&current_ns, &imported_ns\)", "vns_same(&current_ns, &imported_ns)"),
         rw.simple("R2", r"current_ns\s*\.borrow_mut\(\)\s*\.values\s*\.insert\(namespace_sym\.name\.clone\(\), v\);", "vns_insert(&current_ns, namespace_sym.name.clone(), v);"),
         rw.simple("R2", r"current_ns\s*\.borrow_mut\(\)\s*\.values\s*\.insert\(sym\.clone\(\), value\.clone\(\)\);", "vns_insert_imported(&current_ns, sym.clone(), value.clone(), Ghost(imported_ref));"),
         rw.simple("R2", r"let imported_ns = imported_ns\.borrow\(\);", "let ghost imported_ref = imported_ns; let imported_ns = vns_borrow(&imported_ns);"),
